@@ -12,6 +12,13 @@ import (
 	tjson "github.com/d5/tengo/v2/stdlib/json"
 )
 
+// nilIndexObj: a host type whose IndexGet returns (nil, nil), which the Object interface documents as undefined
+type nilIndexObj struct{ tengo.ObjectImpl }
+
+func (o *nilIndexObj) TypeName() string                            { return "nilidx" }
+func (o *nilIndexObj) String() string                              { return "nilidx" }
+func (o *nilIndexObj) IndexGet(tengo.Object) (tengo.Object, error) { return nil, nil }
+
 type arrayImportable struct{}
 
 func (arrayImportable) Import(string) (interface{}, error) {
@@ -213,6 +220,37 @@ var Probes = []Probe{
 			}
 			if e != "" || g["v"] != "(i 5)" {
 				return true, "v = " + g["v"] + " err = " + e
+			}
+			return false, ""
+		}},
+	{ID: "O42", Props: []string{"C01"}, Input: "host object x whose IndexGet returns (nil, nil); y := x.a; x.a.b = 1", WhatFail: "indexAssign did not convert the nil result of IndexGet to undefined (OpIndex does): nil pointer dereference in the VM instead of the run-time error 'not index-assignable: undefined'",
+		Run: func() (fails bool, obs string) {
+			defer func() {
+				if r := recover(); r != nil {
+					fails, obs = true, fmt.Sprintf("Script.Run panics: %v", r)
+				}
+			}()
+			sc := tengo.NewScript([]byte("y := x.a\nx.a.b = 1\n"))
+			_ = sc.Add("x", &nilIndexObj{})
+			_, err := sc.Run()
+			if err == nil || !strings.Contains(err.Error(), "not index-assignable: undefined") {
+				return true, fmt.Sprintf("err = %v", err)
+			}
+			return false, ""
+		}},
+	{ID: "O43", Props: []string{"C04"}, Input: "var mm *tengo.ModuleMap; s.SetImports(mm); x := import(\"m\")", WhatFail: "a typed-nil *ModuleMap passes the 'modules == nil' default of NewCompiler; ModuleMap.Get dereferenced it: Script.Compile panicked instead of reporting module 'm' not found",
+		Run: func() (fails bool, obs string) {
+			defer func() {
+				if r := recover(); r != nil {
+					fails, obs = true, fmt.Sprintf("Script.Compile panics: %v", r)
+				}
+			}()
+			var mm *tengo.ModuleMap
+			sc := tengo.NewScript([]byte("x := import(\"m\")\n"))
+			sc.SetImports(mm)
+			_, err := sc.Compile()
+			if err == nil {
+				return true, "compiled without error"
 			}
 			return false, ""
 		}},
